@@ -2,7 +2,7 @@
      _resolve_called_lambdas().visit(_rewrite_captured_vars(global_getclosurevars(f)).visit(src_ast))
    followed (in ObjectStream.Select/Where/SelectMany) by check_ast.
 
-   The model mirrors the *fixed* algorithms (fixes/F06, F07, F08, F19, FC1, FC2, FC3 .diff):
+   The model mirrors the *fixed* algorithms (fixes/F06, F07, F08, F19, FC1 ... FC6 .diff):
      FC3  a captured plain value is kept as the receiver of an attribute that is not folded (x.upper())
      F19  visit_Attribute folds only when the rewritten receiver is an ast.Constant
      F08  comprehension targets are on the ignore stack (first iterable in the enclosing scope)
@@ -12,6 +12,11 @@
           positional parameters - which is what the [Lambda] constructor of PyAst.v means)
      F07  parameters of lambdas that stay in the tree, and comprehension targets, hide arguments
           of the same name in _resolve_called_lambdas
+     FC4  a called lambda is not inlined when a name of its (visited) arguments is bound again by a lambda /
+          comprehension that may stay inside its body ([inner_binders]); the call stays, its parts resolved
+     FC6  a helper is left by name when a name it still uses freely is bound at the call site ([free_in])
+     FC5  the Lambda of a captured helper is itself rewritten with the helper's own snapshot before it is
+          used ([helper_capval]; any error, and recursion, leave the helper by name)
    What [inspect.getclosurevars] / [f.__globals__] / [getattr] report at the moment of the call is
    an *input* of the model (the snapshot [cenv]); it is validated by correspondence only.
 
@@ -190,6 +195,54 @@ Definition rw_gens (f_out f_in : expr -> sres (expr * expr)) : bool -> list expr
         end
     end.
 
+(* FC6: util_ast._free_names - the names [e] uses that no lambda / comprehension inside it binds *)
+Definition free_gens (f_out f_in : expr -> list string) : bool -> list expr -> list string :=
+  fix go (first : bool) (l : list expr) : list string :=
+    match l with
+    | [] => []
+    | g :: gs =>
+        match g with
+        | CompFor _ it ifs _ => (if first then f_out else f_in) it ++ flat_map f_in ifs ++ go false gs
+        | _ => f_in g ++ go false gs
+        end
+    end.
+
+Fixpoint free_in (bd : list string) (e : expr) {struct e} : list string :=
+  match e with
+  | Name x => if existsb (String.eqb x) bd then [] else [x]
+  | Const _ | Raw _ => []
+  | Lambda ps b => free_in (ps ++ bd) b
+  | ListComp x gs | GenExp x gs =>
+      let bd' := comp_targets gs ++ bd in
+      free_gens (free_in bd) (free_in bd') true gs ++ free_in bd' x
+  | Attr v _ => free_in bd v
+  | Call f args _ kwv => free_in bd f ++ flat_map (free_in bd) args ++ flat_map (free_in bd) kwv
+  | UnaryOp _ x => free_in bd x
+  | BinOp _ l r => free_in bd l ++ free_in bd r
+  | BoolOp _ es => flat_map (free_in bd) es
+  | Compare l _ rs => free_in bd l ++ flat_map (free_in bd) rs
+  | IfExp c t f => free_in bd c ++ free_in bd t ++ free_in bd f
+  | Tuple es | List es => flat_map (free_in bd) es
+  | Dict ks vs => flat_map (free_in bd) ks ++ flat_map (free_in bd) vs
+  | Subscript v s => free_in bd v ++ free_in bd s
+  | CompFor t i ifs _ => free_in bd t ++ free_in bd i ++ flat_map (free_in bd) ifs
+  | Other cls _ cs =>
+      if String.prefix "SetComp;" cls then
+        match cs with
+        | h :: ((_ :: _) as gs) =>
+            let bd' := comp_targets gs ++ bd in free_gens (free_in bd) (free_in bd') true gs ++ free_in bd' h
+        | _ => flat_map (free_in bd) cs
+        end
+      else if String.prefix "DictComp;" cls then
+        match cs with
+        | k :: v :: ((_ :: _) as gs) =>
+            let bd' := comp_targets gs ++ bd in
+            free_gens (free_in bd) (free_in bd') true gs ++ free_in bd' k ++ free_in bd' v
+        | _ => flat_map (free_in bd) cs
+        end
+      else flat_map (free_in bd) cs
+  end.
+
 Definition same (r : sres expr) : sres (expr * expr) := sbind r (fun e' => Ok (e', e')).
 
 Section Rewrite.
@@ -205,7 +258,9 @@ Section Rewrite.
         if is_arg st x then Ok (e, e)
         else match lookup_var ce x with
              | Some (CVal c) => Ok (Const c, e)
-             | Some (CFun (Some l)) => Ok (l, e)
+             | Some (CFun (Some l)) =>
+                 (* FC6: a name the helper keeps by name would fall under a binder of the call site: leave the call by name *)
+                 if existsb (is_arg st) (free_in [] l) then Ok (e, e) else Ok (l, e)
              | _ => Ok (e, e)
              end
     | Attr v a =>
@@ -314,6 +369,39 @@ Definition res_gens (f_out f_in : expr -> expr) : bool -> list expr -> list expr
         end
     end.
 
+(* FC4: names bound inside [e] by lambdas and comprehensions that may stay in the tree.  A called lambda of the
+   inlinable shape whose body has no such binder is certainly inlined: its parameters disappear. *)
+Fixpoint inner_binders (e : expr) : list string :=
+  match e with
+  | Name _ | Const _ | Raw _ => []
+  | Call f args kwn kwv =>
+      match f with
+      | Lambda ps b =>
+          match kwn, inner_binders b with
+          | [], [] => if Nat.eqb (length ps) (length args) then flat_map inner_binders args
+                      else ps ++ flat_map inner_binders args ++ flat_map inner_binders kwv
+          | _, bb => ps ++ bb ++ flat_map inner_binders args ++ flat_map inner_binders kwv
+          end
+      | _ => inner_binders f ++ flat_map inner_binders args ++ flat_map inner_binders kwv
+      end
+  | Lambda ps b => ps ++ inner_binders b
+  | CompFor t i ifs _ => names_in t ++ inner_binders t ++ inner_binders i ++ flat_map inner_binders ifs
+  | Attr v _ => inner_binders v
+  | UnaryOp _ x => inner_binders x
+  | BinOp _ l r => inner_binders l ++ inner_binders r
+  | BoolOp _ es => flat_map inner_binders es
+  | Compare l _ rs => inner_binders l ++ flat_map inner_binders rs
+  | IfExp c t f => inner_binders c ++ inner_binders t ++ inner_binders f
+  | Tuple es | List es => flat_map inner_binders es
+  | Dict ks vs => flat_map inner_binders ks ++ flat_map inner_binders vs
+  | Subscript v s => inner_binders v ++ inner_binders s
+  | ListComp x gs | GenExp x gs => inner_binders x ++ flat_map inner_binders gs
+  | Other _ _ cs => flat_map inner_binders cs
+  end.
+
+Definition overlaps (used bs : list string) : bool :=
+  existsb (fun u => existsb (String.eqb u) bs) used.
+
 Fixpoint res (st : list amap) (e : expr) {struct e} : expr :=
   match e with
   | Name x => match lookup_st x st with Some (Some a) => a | _ => e end
@@ -323,7 +411,11 @@ Fixpoint res (st : list amap) (e : expr) {struct e} : expr :=
           match kwn with
           | [] =>
               if Nat.eqb (length ps) (length args)
-              then res (combine ps (map (@Some expr) (map (res st) args)) :: st) b       (* F06: visit, not generic_visit *)
+              then
+                let args' := map (res st) args in
+                if overlaps (flat_map names_in args') (inner_binders b)
+                then Call (Lambda ps (res (shadow ps :: st) b)) args' [] []            (* FC4: the call stays *)
+                else res (combine ps (map (@Some expr) args') :: st) b                 (* F06: visit, not generic_visit *)
               else Call (Lambda ps (res (shadow ps :: st) b)) (map (res st) args) kwn (map (res st) kwv)
           | _ => Call (Lambda ps (res (shadow ps :: st) b)) (map (res st) args) kwn (map (res st) kwv)   (* FC2 *)
           end
@@ -374,6 +466,16 @@ Fixpoint res (st : list amap) (e : expr) {struct e} : expr :=
    node without generators would raise IndexError in the implementation; no parser produces one, and
    [res] returns such a node unchanged.) *)
 Definition resolve_called (e : expr) : sres expr := Ok (res [] e).
+
+(* FC5: what visit_Name.safe_parse_wrapper makes of a captured helper whose source was parsed into the lambda
+   [l]: the lambda rewritten with the helper's own snapshot [hce]; any exception leaves the helper by name.
+   (The recursion over helpers of helpers, and its guard against self-reference, is carried out by the caller
+   that assembles the snapshot - the driver - one [helper_capval] step per helper.) *)
+Definition helper_capval (hce : cenv) (l : expr) : capval :=
+  match rewrite_captured hce l with
+  | Ok l' => CFun (Some l')
+  | Err _ => CFun None
+  end.
 
 (* ---------- check_ast ---------- *)
 
